@@ -344,6 +344,33 @@ func wiIngest(w, name, targetsTok string, now int64, resps []*gpb.SubscribeRespo
 		sortedBracket(events[resetStart:]) + ";" + wiContent(c)
 }
 
+// wiOpt: manager.Config leaves every callback optional.  A Manager built from a Config holding exactly the
+// callbacks of the mask (1 Connect, 2 Sync, 4 Update, 8 Reset; the others nil) runs handleUpdates over the
+// scripted stream; the observation is the list of callbacks invoked (Model/ManagerOpt.lean).  Found necessary
+// by seeded change c12_seed10 (no-op defaults installed for three of the four callbacks, all nil checks dropped).
+func wiOpt(mask int, resps []*gpb.SubscribeResponse) string {
+	var trace []string
+	cfg := manager.Config{ConnectionManager: rxConnMgr{}}
+	if mask&1 != 0 {
+		cfg.Connect = func(string) { trace = append(trace, "C") }
+	}
+	if mask&2 != 0 {
+		cfg.Sync = func(string) { trace = append(trace, "S") }
+	}
+	if mask&4 != 0 {
+		cfg.Update = func(string, *gpb.Notification) { trace = append(trace, "U") }
+	}
+	if mask&8 != 0 {
+		cfg.Reset = func(string) { trace = append(trace, "R") }
+	}
+	m, err := manager.NewManager(cfg)
+	if err != nil {
+		return "bad-op"
+	}
+	m.VerifHandleUpdates(context.Background(), "dev", &wiScript{resps: resps, onRecv: func(int) {}})
+	return bracket(trace)
+}
+
 // ---------------------------------------------------------------- subs
 
 type wiSubStream struct {
@@ -471,6 +498,9 @@ func (c *wiComp) Run(args []string) string {
 	case args[0] == "ingest" && len(args) == 6:
 		now, _ := strconv.ParseInt(args[4], 10, 64)
 		return wiIngest(args[1], decStr(args[2]), args[3], now, rxParseResps(args[5]))
+	case args[0] == "opt" && len(args) == 3:
+		mask, _ := strconv.Atoi(args[1])
+		return wiOpt(mask, rxParseResps(args[2]))
 	case args[0] == "subs" && len(args) == 5:
 		var later []*gpb.SubscribeRequest
 		if args[4] != "-" {
@@ -655,6 +685,12 @@ func (c *wiComp) Exhaustive(tier string) [][]string {
 			}
 		}
 	}
+	// every subset of the optional callbacks x streams reaching every call site
+	for mask := 0; mask < 16; mask++ {
+		for _, resps := range []string{"-", "S1", "U" + notis[3], "E1", "Z", "S1&U" + notis[3] + "&E1&Z&U" + notis[5] + "&S0"} {
+			ops = append(ops, "opt "+strconv.Itoa(mask)+" "+resps)
+		}
+	}
 	for _, f := range wiFirstReqs {
 		for _, ca := range []string{rxCaches[len(rxCaches)-1], rxCaches[0]} {
 			ops = append(ops, "subs "+ca+" 0 "+f+" -")
@@ -690,6 +726,10 @@ func (c *wiComp) Gen(r *rand.Rand, tier string) []string {
 				first = rxRandReq(r)
 			}
 			seq = append(seq, "subs "+rxCaches[r.Intn(len(rxCaches))]+" "+strconv.Itoa(r.Intn(4)/3)+" "+first+" "+l)
+			continue
+		}
+		if r.Intn(6) == 0 {
+			seq = append(seq, "opt "+strconv.Itoa(r.Intn(16))+" "+rxRandResps(r))
 			continue
 		}
 		// a session: random responses whose timestamps (0..4) collide with the clock readings of the
